@@ -18,7 +18,12 @@ NOW_US = int(datetime.datetime(2026, 9, 26, 12, 0, 0, tzinfo=datetime.timezone.u
 LINK_VARIANTS = ["honest"] * 14 + ["unsigned", "wrong_signer", "edited", "sig_nibble", "sig_keyid", "missing", "replayed_name",
                                    "disagree_mat", "disagree_prod", "malformed", "two_sigs_bad_first", "other_keyid_name",
                                    "sig_nonhex", "unknown_field"]
-LAYOUT_VARIANTS = ["honest"] * 8 + ["expired", "unsigned", "edited", "wrong_signer", "sig_nibble"]
+LAYOUT_VARIANTS = ["honest"] * 8 + ["expired", "unsigned", "edited", "wrong_signer", "sig_nibble", "foreign_type"]
+
+
+def layout_variants(opts):
+    """(the foreign payload type exists in one container only: left out where scenarios are re-rendered in the other)"""
+    return [v for v in LAYOUT_VARIANTS if not (opts.get("format_neutral") and v == "foreign_type")]
 
 
 class Env:
@@ -419,6 +424,15 @@ class Builder:
         elif variant == "wrong_signer":
             signers = self.pick_keys(1, exclude=[k.keyid for k in owners])
             self.tags.append("layout_wrong_signer")
+        if variant == "foreign_type":
+            # a validly signed DSSE envelope of ANOTHER payload type whose payload happens to look like a layout:
+            # not in-toto metadata (the type is part of what is signed); the traditional format has no such field
+            if is_dsse:
+                md.payload_type = rng.choice(["application/vnd.other+json", "application/vnd.in-toto+jsonx", "text/plain"])
+                self.tags.append("layout_foreign_type")
+            else:
+                variant = "honest"
+                info["variant"] = "honest"
         for k in signers:
             self.env.sign(md, k)
         fj = to_file(md)
@@ -533,7 +547,7 @@ class Builder:
         if directive is not None:
             return self.add_planned(tree, depth, step, key, M, P, fkeys, other_steps, directive)
         if depth < self.o.get("max_depth", 2) and rng.random() < self.o.get("p_sub", 0.12) and key.kind != "gpg":
-            variant = rng.choice(LAYOUT_VARIANTS) if self.o.get("deviate", True) and rng.random() < 0.5 else "honest"
+            variant = rng.choice(layout_variants(self.o)) if self.o.get("deviate", True) and rng.random() < 0.5 else "honest"
             if self.o.get("sub_variants"):
                 variant = rng.choice(self.o["sub_variants"])
             sub_owners = [key]
@@ -955,7 +969,7 @@ def build(rng, env, opts, workdir):
             root_dsse = False
             owners = rng.choice([[gk], [gk] + owners[:1], owners[:1] + [gk]])
         b.tags.append("gpg_" + gpg_mode)
-    variant = rng.choice(LAYOUT_VARIANTS) if opts.get("deviate", True) and rng.random() < 0.35 else "honest"
+    variant = rng.choice(layout_variants(opts)) if opts.get("deviate", True) and rng.random() < 0.35 else "honest"
     if opts.get("root_variant"):
         variant = opts["root_variant"]
     mats, prods = rand_artifacts(rng), rand_artifacts(rng, rng.randrange(1, 4))
@@ -1049,7 +1063,7 @@ def ph_params(rng, used):
         p = dict(good)
         del p[rng.choice(sorted(p))]
     elif kind == "extra":
-        p = dict(good, P9="x", unused_="", **{"P-9": "{P1}"})
+        p = dict(good, P9="x", unused_="", args="a", kwargs="k", self="s", cls="c", format_spec="f", **{"P-9": "{P1}"})
     elif kind == "empty":
         p = {k: ("" if rng.random() < 0.5 else v) for k, v in good.items()}
     elif kind == "braces":
